@@ -67,7 +67,20 @@ def layouts(ctx):
     out.append(("same-local-ref-text", {"a.json": withbase("a", {"alpha": {"type": "string"}}, {"x": {"type": "integer"}}),
                                         "b.json": withbase("b", {"beta": {"type": "string", "minLength": 2}, "b2": {"type": "integer"}}, {"y": {"type": "integer"}})},
                 {"http://x/a": ("example.com/pa", "pa/gen.go"), "http://x/b": ("example.com/pb", "pb/gen.go")}, [["a.json", "b.json"]], None))
+    # two different files carrying the same id (one mapping for both): both land, completely, in the mapped file; a third package refers into one of them
+    CU = {"$id": "http://x/crm", "type": "object", "$defs": {"Tag": {"type": "string", "minLength": 1}}, "properties": {"name": {"type": "string"}, "tags": {"type": "array", "items": {"$ref": "#/$defs/Tag"}}}}
+    IN = {"$id": "http://x/crm", "type": "object", "$defs": {"Line": {"type": "object", "properties": {"qty": {"type": "integer", "minimum": 1}}, "required": ["qty"]}},
+          "properties": {"lines": {"type": "array", "items": {"$ref": "#/$defs/Line"}}}}
+    OR = {"$id": "http://x/orders", "type": "object", "properties": {"first": {"$ref": "invoice.json#/$defs/Line"}, "n": {"type": "integer"}}}
+    out.append(("same-id-two-files", {"customer.json": CU, "invoice.json": IN, "order.json": OR},
+                {"http://x/crm": ("example.com/crm", "crm/gen.go"), "http://x/orders": ("example.com/orders", "orders/gen.go")}, [["customer.json", "invoice.json", "order.json"]], None))
+    out.append(("same-id-two-files-pair", {"customer.json": CU, "invoice.json": IN}, {"http://x/crm": ("example.com/crm", "crm/gen.go")}, [["customer.json", "invoice.json"]], None))
     return out
+
+
+def root_type_name(path):
+    stem, _, ext = os.path.basename(path).rpartition(".")
+    return stem[:1].upper() + stem[1:] + ext[:1].upper() + ext[1:]
 
 
 def argv_for(maps, args):
@@ -114,7 +127,7 @@ def run(ctx):
     for li, (name, files, maps, arglists, same_as) in enumerate(lay):
         fs = {"in/" + k: json.dumps(v) for k, v in files.items()}
         for a in arglists[0]:
-            if len(arglists[0]) > 1 and files[a].get("$id") in maps:
+            if len(arglists[0]) > 1 and files[a].get("$id") in maps and not name.startswith("same-id"):
                 alone.append((li, a, Run("l%da%s" % (li, a.replace("/", "_").replace(".", "_")), fs, argv_for(maps, [a]))))
     run_all(ctx, runs + [x[2] for x in alone])
     by = {}
@@ -166,6 +179,14 @@ def run(ctx):
                 if key in seen:
                     viol(first, "layout %s: type %s declared in %s and %s" % (name, t["name"], seen[key], fn))
                 seen[key] = fn
+        # every file given on the command line: its root type and its definitions are declared in the file its id maps to
+        for a in arglists[0]:
+            sc = files[a]
+            target = "out/" + (maps[sc["$id"]][1] if sc.get("$id") in maps else "dflt/gen.go")
+            have = set(t["name"] for t in scans.get(target, {"types": []})["types"])
+            want = set([root_type_name(a)] + [d[:1].upper() + d[1:] for d in list(sc.get("$defs", {})) + list(sc.get("definitions", {})) if d.isalnum()])
+            if not want <= have:
+                viol(first, "layout %s: %s (id %s) should declare %s in %s; missing %s" % (name, a, sc.get("$id"), sorted(want), target, sorted(want - have)))
         ok, log = build_outputs(ctx, name, first.created)
         if not ok:
             viol(first, "layout %s: the emitted packages do not build together: %s" % (name, log[-400:]))
@@ -188,7 +209,7 @@ def run(ctx):
     replay_findings(ctx)
     ctx.cov["rule"] = ("7 layouts of 2-4 schema files (three packages with references through sub- and parent directories and a YAML file; the same plus an unrelated file; only "
                        "the top file on the command line; two packages whose import paths end in the same element; one package in two files; no mappings; a diamond of four "
-                       "files; two unrelated files using the same local reference text for different definitions); every top-level file also alone; every argument order (at most 24; every fourth in the quick tier beyond 6); observables: files written, package clauses, type names per package, "
+                       "files; two unrelated files using the same local reference text for different definitions; two different files carrying the same id, with and without a third package referring into one of them); every top-level file also alone; the root type and the definitions of every file given on the command line are declared in the file its id maps to; every argument order (at most 24; every fourth in the quick tier beyond 6); observables: files written, package clauses, type names per package, "
                        "go build of all emitted packages in one module, byte identity across orders and against the layout it extends; non-trivial = every run")
     r = runs[0]
     ctx.sample({"family": "layouts", "argv": r.argv, "created": sorted(r.created), "status": r.status})
